@@ -5,6 +5,7 @@ mod ctx;
 mod fam_cipher;
 mod fam_codec;
 mod fam_edit;
+mod fam_extract;
 mod fam_frame;
 mod fam_history;
 mod fam_list;
@@ -55,6 +56,7 @@ fn main() {
         "entry" => fam_codec::entry(&mut ctx),
         "edit" => fam_edit::edit(&mut ctx),
         "history" => fam_history::history(&mut ctx),
+        "extract-fs" => fam_extract::extract_fs(&mut ctx),
         "list" => fam_list::list(&mut ctx),
         "roundtrip" => fam_round::roundtrip(&mut ctx),
         "split" => fam_split::split(&mut ctx),
